@@ -10,19 +10,19 @@ import (
 )
 
 func init() {
-	register(&Rule{ID: "C03.R1", Min: 3,
+	register(&Rule{ID: "C03.R1", Min: 1,
 		Text: "flags→error: on every path of Condition.GoError the error is non-nil iff r&(SystemOverflow|SystemUnderflow) != 0 or r&traps != 0, and the Condition result is the receiver; Context.goError returns (flags, nil) only under flags == 0 and otherwise GoError(c.Traps)",
 		Run:  ruleGoError})
-	register(&Rule{ID: "C03.R2", Min: 21,
+	register(&Rule{ID: "C03.R2", Min: 12,
 		Text: "ErrDecimal wrappers agree: each first tests e.Err() and returns untouched on the non-nil edge, calls exactly the Context method of the same name on e.Ctx with its own parameters in order, and hands both results to update; update accumulates Flags with |= and stores err",
 		Run:  ruleErrDecimalWrappers})
-	register(&Rule{ID: "C03.R3", Min: 40,
+	register(&Rule{ID: "C03.R3", Min: 35,
 		Text: "every return of a single-rounding operation goes through the trap filter: (flags, error) pairs come from goError/GoError on those very flags, from a tail call of another operation, are (0, nil), or carry a definitely non-nil error",
 		Run:  ruleReturnIdioms})
 	register(&Rule{ID: "C03.R4", Min: 1,
 		Text: "errors are compared with nil, never with each other (expected zero sites; the checker carries a positive example)",
 		Run:  ruleErrorCompare})
-	register(&Rule{ID: "C03.R5", Min: 6,
+	register(&Rule{ID: "C03.R5", Min: 3,
 		Text: "composite functions surface wrapper errors: in every function using an ErrDecimal, each result-delivering return and each direct write of the caller's destination is preceded, after the last wrapper call on every path, by an ed.Err() test whose non-nil edge returns that error (or the function returns ed.Err() itself)",
 		Run:  ruleSurfaceErrors})
 }
